@@ -24,7 +24,8 @@ From Base Require Import Prelude Sx Json.
 Inductive dkind :=
 | DRequired                 (* no `default`: missing -> error, unless the type is Option *)
 | DDefault                  (* #[serde(default)]: Default::default() of the field type *)
-| DConst (c : json).        (* #[serde(default = "path")] with the value `path()` returns, as JSON *)
+| DConst (c : json)         (* #[serde(default = "path")] with the value `path()` returns, as JSON *)
+| DStrict.                  (* a `with` / `deserialize_with` member without `default`: missing -> error even for Option *)
 
 (** when a member is left out on output *)
 Inductive skind :=
@@ -166,6 +167,7 @@ Section Serde.
                             | DDefault => default_of ft
                             | DConst c => deser ft c
                             | DRequired => match ft with TOpt _ => Some VNone | _ => None end
+                            | DStrict => None
                             end
                         | _ => None
                         end in
